@@ -536,8 +536,6 @@ def check_ue(pairs):
         if variant == "multidict" and got_args != exp:
             fails.append(("urlencoded:request.args:" + ("exception" if got_args and got_args[0] == "EXC" else "differs"),
                           {"pipeline": "request.args", "expected": exp, "got": got_args}))
-        if len({k for k, _ in pairs}) == len(pairs) or variant == "dict-of-lists":
-            pass
     return fails
 
 
@@ -620,7 +618,7 @@ def run_unit(unit, R, tier):
                 R.sample({"kind": "sweep", "code_point": cp})
             for sig, d in fails:
                 R.violation(sig, {"kind": "sweep", "sig": sig, "cp": cp, **d})
-        R.outcome(("sweep", lo))
+        R.outcome(("sweep", "done"))
     else:
         _, idx, n = unit
         for j, pairs in enumerate(gen.shard(ue_cases(tier), n, idx)):
